@@ -24,6 +24,7 @@ type Solver struct {
 	Queries   int
 	Time      time.Duration
 	dead      bool
+	AbstractFP bool // FP arithmetic printed as uninterpreted functions (sound for UNSAT answers only)
 	Log       io.Writer
 	buf       strings.Builder
 }
@@ -33,7 +34,7 @@ func StartSolver(kind string, timeoutMs int) (*Solver, error) {
 	switch kind {
 	case "z3":
 		cmd = exec.Command("z3", "-in", "-smt2")
-	case "z3-new":
+	case "z3-new", "z3-new-uf":
 		cmd = exec.Command("z3-new", "-in", "-smt2")
 	case "cvc5":
 		cmd = exec.Command("cvc5", "--incremental", "--fp-exp", "--lang", "smt2", fmt.Sprintf("--tlimit-per=%d", timeoutMs), "--produce-models")
@@ -60,11 +61,32 @@ func StartSolver(kind string, timeoutMs int) (*Solver, error) {
 			s.Log = f
 		}
 	}
+	if kind == "z3-new-uf" {
+		s.AbstractFP = true
+	}
 	if kind == "cvc5" {
 		s.send("(set-logic ALL)\n")
 	} else {
 		s.send("(set-option :produce-models true)\n")
 		s.send(fmt.Sprintf("(set-option :timeout %d)\n", timeoutMs))
+	}
+	if s.AbstractFP {
+		for _, w := range []int{32, 64} {
+			f := F64.String()
+			if w == 32 {
+				f = F32.String()
+			}
+			for _, op := range []string{"fadd", "fsub", "fmul", "fdiv"} {
+				s.send(fmt.Sprintf("(declare-fun uf_%s%d (%s %s) %s)\n", op, w, f, f, f))
+			}
+			for _, bw := range []int{8, 16, 32, 64} {
+				s.send(fmt.Sprintf("(declare-fun uf_stof%d_%d ((_ BitVec %d)) %s)\n", w, bw, bw, f))
+				s.send(fmt.Sprintf("(declare-fun uf_utof%d_%d ((_ BitVec %d)) %s)\n", w, bw, bw, f))
+				s.send(fmt.Sprintf("(declare-fun uf_ftos%d_%d (%s) (_ BitVec %d))\n", w, bw, f, bw))
+				s.send(fmt.Sprintf("(declare-fun uf_ftou%d_%d (%s) (_ BitVec %d))\n", w, bw, f, bw))
+			}
+		}
+		s.send("(declare-fun uf_ftof64 ((_ FloatingPoint 8 24)) (_ FloatingPoint 11 53))\n(declare-fun uf_ftof32 ((_ FloatingPoint 11 53)) (_ FloatingPoint 8 24))\n")
 	}
 	return s, nil
 }
@@ -133,7 +155,11 @@ func (s *Solver) define(t *Term) {
 		if n.Op == OpVar {
 			s.send(fmt.Sprintf("(declare-const %s %s)\n", smtName(n), n.S))
 		} else {
-			s.send(fmt.Sprintf("(define-fun n%d () %s %s)\n", n.ID, n.S, exprSMT(n, refName)))
+			if s.AbstractFP {
+				s.send(fmt.Sprintf("(define-fun n%d () %s %s)\n", n.ID, n.S, exprSMTAbs(n, refName)))
+			} else {
+				s.send(fmt.Sprintf("(define-fun n%d () %s %s)\n", n.ID, n.S, exprSMT(n, refName)))
+			}
 		}
 		stack = stack[:len(stack)-1]
 	}
@@ -438,6 +464,7 @@ type Pool struct {
 	all       []*Solver
 	Queries   int
 	TimeBy    map[string]time.Duration
+	NoAbstraction bool
 }
 
 func NewPool(timeoutMs int) *Pool {
@@ -452,7 +479,11 @@ func (p *Pool) Get(kind string) *Solver {
 		p.free[kind] = l[:len(l)-1]
 		return s
 	}
-	s, err := StartSolver(kind, p.timeoutMs)
+	to := p.timeoutMs
+	if kind == "cvc5" {
+		to *= 5 // floating-point arithmetic is slow to decide; probe: 18-60 s for whole-score() queries
+	}
+	s, err := StartSolver(kind, to)
 	if err != nil {
 		panic(err)
 	}
@@ -489,6 +520,16 @@ func (p *Pool) Solve(as []*Term, vars []*Term) (string, Model, string) {
 		if a.HasFPOp() {
 			kind = "cvc5"
 			break
+		}
+	}
+	if kind == "cvc5" && vars == nil && !p.NoAbstraction {
+		// floating-point arithmetic: first try with the operations abstracted to uninterpreted functions
+		// (congruence proves structurally equal computations equal); only an UNSAT answer is used
+		s := p.Get("z3-new-uf")
+		r, _ := s.Check(as, nil)
+		p.Put(s)
+		if r == "unsat" {
+			return r, nil, "z3-new-uf"
 		}
 	}
 	s := p.Get(kind)
